@@ -97,19 +97,26 @@ out.append("Round h: 20 fresh sub-agents, one per property, given only the prope
            "on the unchanged tree, then the repository was repaired; *known* = genuine, recorded in known_findings.json; *reading* = depends on a "
            "reading of the statement that the check does not adopt (reason given); *outside* = outside the quantifier (reason given). "
            "Where a genuine finding had been hidden by a carve-out of my own generator or oracle, the disposition says so.\n")
-out.append("| finding | hunter's confidence | mechanism (hunter's words, shortened) | disposition |")
-out.append("|---|---|---|---|")
-hb = os.path.join(HERE, "hunt")
-disp = json.load(open(os.path.join(hb, "dispositions.json"))) if os.path.exists(os.path.join(hb, "dispositions.json")) else {}
-cnt = {}
-for pid in sorted(x for x in os.listdir(hb) if x.startswith("C")) if os.path.isdir(hb) else []:
-    fs = json.load(open(os.path.join(hb, pid, "findings.json")))
-    for j, f in enumerate(fs, 1):
-        k = f"{pid}-{j}"
-        dv = disp.get(k, ["?", "?"])
-        cnt[dv[0].split(" ")[0]] = cnt.get(dv[0].split(" ")[0], 0) + 1
-        out.append(f"| {k} | {esc(f.get('confidence', '?'))[:12]} | {esc(f['mechanism'])[:260]} | **{esc(dv[0])}** - {esc(dv[1])} |")
-out.append("\n" + ", ".join(f"{v} {k}" for k, v in sorted(cnt.items())) + ".\n")
+for rnd, sub in (("h", "hunt"), ("i (second hunt, on the tree repaired after round h; hunters were told what had been reported before)", "hunt2")):
+    hb = os.path.join(HERE, sub)
+    if not os.path.isdir(hb):
+        continue
+    disp = json.load(open(os.path.join(hb, "dispositions.json"))) if os.path.exists(os.path.join(hb, "dispositions.json")) else {}
+    cnt = {}
+    out.append(f"\n**Round {rnd}**\n")
+    out.append("| finding | hunter's confidence | mechanism (hunter's words, shortened) | disposition |")
+    out.append("|---|---|---|---|")
+    none = []
+    for pid in sorted(x for x in os.listdir(hb) if x.startswith("C")):
+        fs = json.load(open(os.path.join(hb, pid, "findings.json")))
+        if not fs:
+            none.append(pid)
+        for j, f in enumerate(fs, 1):
+            k = f"{pid}-{j}"
+            dv = disp.get(k, ["?", "?"])
+            cnt[dv[0].split(" ")[0]] = cnt.get(dv[0].split(" ")[0], 0) + 1
+            out.append(f"| {k} | {esc(f.get('confidence', '?'))[:12]} | {esc(f['mechanism'])[:260]} | **{esc(dv[0])}** - {esc(dv[1])} |")
+    out.append("\n" + ", ".join(f"{v} {k}" for k, v in sorted(cnt.items())) + (f"; no finding at all for {', '.join(none)}" if none else "") + ".\n")
 
 text = "\n".join(out)
 dp = os.path.join(HERE, "DESIGN.md")
